@@ -2,6 +2,7 @@ package idgen
 
 import (
 	"context"
+	"errors"
 	"time"
 
 	"tunnox-core/internal/core/storage"
@@ -12,15 +13,23 @@ import (
 // c15Store forwards to a real store and makes every operation a scheduling point.
 type c15Store struct {
 	storage.Storage
-	cas storage.CASStore
+	cas    storage.CASStore
+	failNX *int // >0: that many following SetNX calls (on any node sharing the counter) fail with a store error
 }
 
-func (s *c15Store) Set(k string, v any, ttl time.Duration) error { verif_Yield(); return s.Storage.Set(k, v, ttl) }
-func (s *c15Store) Get(k string) (any, error)                    { verif_Yield(); return s.Storage.Get(k) }
-func (s *c15Store) Delete(k string) error                        { verif_Yield(); return s.Storage.Delete(k) }
-func (s *c15Store) Exists(k string) (bool, error)                { verif_Yield(); return s.Storage.Exists(k) }
+func (s *c15Store) Set(k string, v any, ttl time.Duration) error {
+	verif_Yield()
+	return s.Storage.Set(k, v, ttl)
+}
+func (s *c15Store) Get(k string) (any, error)     { verif_Yield(); return s.Storage.Get(k) }
+func (s *c15Store) Delete(k string) error         { verif_Yield(); return s.Storage.Delete(k) }
+func (s *c15Store) Exists(k string) (bool, error) { verif_Yield(); return s.Storage.Exists(k) }
 func (s *c15Store) SetNX(k string, v any, ttl time.Duration) (bool, error) {
 	verif_Yield()
+	if s.failNX != nil && *s.failNX > 0 {
+		*s.failNX--
+		return false, errC15Store
+	}
 	return s.cas.SetNX(k, v, ttl)
 }
 func (s *c15Store) CompareAndSwap(k string, o, n any, ttl time.Duration) (bool, error) {
@@ -28,15 +37,17 @@ func (s *c15Store) CompareAndSwap(k string, o, n any, ttl time.Duration) (bool, 
 	return s.cas.CompareAndSwap(k, o, n, ttl)
 }
 
+var errC15Store = errors.New("store: transient error")
+
 func c15Stores(ctx context.Context) []storage.Storage {
 	mem := memory.New(ctx)
 	if verif_Bool() {
-		return []storage.Storage{&c15Store{mem, mem}, &c15Store{mem, mem}}
+		return []storage.Storage{&c15Store{Storage: mem, cas: mem}, &c15Store{Storage: mem, cas: mem}}
 	}
 	shared := memory.New(ctx)
 	h1 := hybrid.NewWithSharedCache(ctx, memory.New(ctx), shared, nil, hybrid.DefaultConfig())
 	h2 := hybrid.NewWithSharedCache(ctx, memory.New(ctx), shared, nil, hybrid.DefaultConfig())
-	return []storage.Storage{&c15Store{h1, h1}, &c15Store{h2, h2}}
+	return []storage.Storage{&c15Store{Storage: h1, cas: h1}, &c15Store{Storage: h2, cas: h2}}
 }
 
 // Sequential use of the public API with candidates from a set of two: a taken candidate
@@ -52,8 +63,16 @@ func Harness_C15_generate() {
 	verif_Assert("C15.gen.first", err == nil)
 	used, _ := g2.IsUsed(taken)
 	verif_Assert("C15.gen.marked_everywhere", used)
-	// the other node generates: it must never return the taken id
+	// the other node generates: it must never return the taken id - also when its first claim
+	// attempt hits a transient store error
+	if st2, ok := sts[1].(*c15Store); ok && verif_Bool() {
+		one := 1
+		st2.failNX = &one
+		verif_Cover("C15.gen.store_error")
+	}
 	second, err2 := g2.Generate()
+	stillUsed, _ := g1.IsUsed(taken)
+	verif_Assert("C15.gen.holder_keeps_marker", stillUsed)
 	if err2 == nil {
 		verif_Assert("C15.gen.not_taken", second != taken)
 		verif_Cover("C15.gen.collision_avoided")
